@@ -66,13 +66,18 @@ NextDecl ==
        THEN toRaise' = sc.decls[ip + 1].f \cap Listed /\ pc' = "render" /\ UNCHANGED todo
        ELSE toRaise' = {} /\ pc' = "next" /\ todo' = Append(todo, {})      \* skipped: nothing is raised, nothing is written
   /\ UNCHANGED <<sc, pending>>
+(* the two steps of the bookkeeping proper; the trace specification (C20_TodoTrace.tla) replays the real generator's adds and *)
+(* flushes through them *)
+DoRaise(k) == pending' = pending \cup {k}
+DoFlush(out) == out = pending /\ pending' = {}
 Raise(k) ==
   /\ pc = "render" /\ k \in toRaise
-  /\ pending' = pending \cup {k} /\ toRaise' = toRaise \ {k}
+  /\ DoRaise(k) /\ toRaise' = toRaise \ {k}
   /\ UNCHANGED <<sc, ip, todo, pc>>
 Flush ==
   /\ pc = "render" /\ toRaise = {}
-  /\ todo' = Append(todo, pending) /\ pending' = {} /\ pc' = "next"
+  /\ DoFlush(pending) /\ todo' = Append(todo, pending)
+  /\ pc' = "next"
   /\ UNCHANGED <<sc, ip, toRaise>>
 EndModule == pc = "next" /\ ip = Len(sc.decls) /\ pc' = "done" /\ UNCHANGED <<sc, ip, toRaise, pending, todo>>
 Next == BeginModule \/ NextDecl \/ (\E k \in Listed : Raise(k)) \/ Flush \/ EndModule
